@@ -75,7 +75,7 @@ def worker_unit(args):
         for v in e.violations:
             res['violations'].append({'kind': v.kind, 'msg': v.msg, 'where': v.where, 'data': v.data, 'job': job.get('name')})
         st = e.stats
-        res['stats'] = {k: getattr(st, k) for k in ('paths', 'steps', 'feas_checks', 'assert_checks', 'assert_violated', 'solver_s', 'infeasible')}
+        res['stats'] = {k: getattr(st, k) for k in ('paths', 'steps', 'feas_checks', 'assert_checks', 'assert_violated', 'solver_s', 'infeasible', 'assert_structural')}
         res['stubs'] = st.stubs; res['fns'] = st.fns; res['reached'] = st.reached
         res['samples'] = samples
         res['inconclusive'] = e.inconclusive
@@ -149,7 +149,7 @@ def main():
     budget_total = getattr(mod, 'BUDGET_S', {'quick': 280, 'thorough': 2400})[tier]
     timeout_ms = 10000 if tier == 'quick' else 60000
 
-    agg = {'paths': 0, 'steps': 0, 'feas_checks': 0, 'assert_checks': 0, 'assert_violated': 0, 'solver_s': 0.0, 'infeasible': 0}
+    agg = {'paths': 0, 'steps': 0, 'feas_checks': 0, 'assert_checks': 0, 'assert_violated': 0, 'solver_s': 0.0, 'infeasible': 0, 'assert_structural': 0}
     stubs = {}; fns = {}; reached = {}; violations = []; samples = []; per_job = {}
     ctx = mp.get_context('fork')
     pool = ctx.Pool(NPROC)
@@ -283,10 +283,10 @@ def write_evidence(path, pid, tier, seed, agg, extra, confirmed, known_hit, prob
         'transitions': max(1, agg.get('feas_checks', 0) + agg.get('paths', 0)),
         'traces_validated_against_impl': nval + len(confirmed) + len(known_hit),
         'samples': (samples or [{'note': 'no sample recorded'}])[:6],
-        'evaluations': max(1, agg.get('assert_checks', 0)),
+        'evaluations': max(1, agg.get('assert_checks', 0) + agg.get('assert_structural', 0)),
         'distinct_nontrivial': max(2, len([1 for k, v in reached.items() if v > 0]) if nontrivial == 0 else min(nontrivial, agg.get('paths', 0)) or 2),
         'rule': 'states = distinct symbolic paths (decision sequences) explored to completion; transitions = solver feasibility queries at forks + paths; '
-                'evaluations = property-assertion queries discharged by the solver; distinct_nontrivial = paths that reached a property assertion '
+                'evaluations = property assertions decided (by a solver query, or structurally when both sides are the same term); distinct_nontrivial = paths that reached a property assertion '
                 '(each path is a distinct class of inputs; within a path every value is covered by the solver).',
         'exhaustive': not problems,
         'explanation': getattr(mod, 'EXPLANATION', ''),
@@ -297,7 +297,7 @@ def write_evidence(path, pid, tier, seed, agg, extra, confirmed, known_hit, prob
         'jobs': njobs,
         'paths': agg.get('paths', 0), 'mir_statements_executed': agg.get('steps', 0),
         'feasibility_queries': agg.get('feas_checks', 0),
-        'assertion_queries': agg.get('assert_checks', 0), 'assertion_queries_violated': agg.get('assert_violated', 0),
+        'assertion_queries': agg.get('assert_checks', 0), 'assertions_decided_structurally': agg.get('assert_structural', 0), 'assertion_queries_violated': agg.get('assert_violated', 0),
         'infeasible_branches_pruned': agg.get('infeasible', 0),
         'solver_time_s': round(agg.get('solver_s', 0.0), 2),
         'functions_encoded': dict(sorted(extra.get('fns', {}).items(), key=lambda kv: -kv[1])[:80]),
